@@ -516,6 +516,9 @@ pub fn generate(profile_name: &str, seed: u64) -> Scenario {
         sc.profile = "overlap".to_string();
         return sc;
     }
+    if profile_name == "idle" && seed % 160 == 17 {
+        return generate_marathon(seed);
+    }
     let p = profile(profile_name);
     let mut r = Rng::new(seed ^ crate::util::mix(0xABCD, profile_name.len() as u64 * 131 + profile_name.as_bytes()[0] as u64));
     let n = r.range(p.actors.0, p.actors.1) as usize;
@@ -1043,6 +1046,34 @@ fn generate_overlap(seed: u64) -> Scenario {
         sample_until: 61,
         default_cap: 32,
         fixed_timing: true,
+    }
+}
+
+/// A long life: one actor whose on_run never gets to finish (it sleeps for seconds, every message pre-empts it) handles well
+/// over a thousand messages. Nothing about "messages first" may wear off with the number of messages or pre-emptions.
+fn generate_marathon(seed: u64) -> Scenario {
+    let mut r = Rng::new(seed ^ 0x3A7A);
+    let total = 1050 + r.below(300);
+    let chunk = 8 + r.below(24);
+    let mut ops = vec![];
+    for i in 0..total {
+        ops.push(ClientOp {
+            pre: if i % chunk == 0 { Pre::Sleep(2) } else { Pre::None },
+            op: Op::Send { slot: 0, kind: if i % 97 == 96 { SendKind::Ask } else { SendKind::Tell }, mty: MTy::U, body: Body::plain(i + 1) },
+        });
+    }
+    let run = (0..3).map(|_| RunStep { segs: vec![2000 + 2 * r.below(1000)], steps: vec![], out: Out::True }).collect();
+    Scenario {
+        seed,
+        pert: 0,
+        profile: "idle".to_string(),
+        actors: vec![ActorSpec { cap: Some(32 + r.below(33) as usize), start: HookScript::default(), run, stop: HookScript::default(), run_err_when_handled: None, in_peers: false }],
+        clients: vec![ClientSpec { init: vec![Some(0), None, None, None], ops, drop_at_end: r.chance(50) }],
+        ngates: 1,
+        teardown: vec![if r.chance(50) { Teardown::Stop } else { Teardown::Kill }],
+        sample_until: 21,
+        default_cap: 32,
+        fixed_timing: false,
     }
 }
 
